@@ -94,3 +94,110 @@ def port_loop_obligations():
         obs.append(Obligation(f"{KEY}/port-loop/p{pi}/post.one-signal-and-one-port-appended", "post", list(s2.pc), goal, KEY,
                               "port-loop", pi, {"trace": list(s2.trace), "havoc": list(s2.ghost.get("havoc", ()))}))
     return KEY, obs, info
+
+
+# ------------------------------------------------------------------------------------------------ export_module's loops
+K_MOD = "hdl21.proto.exporting:ProtoExporter.export_module"
+K_INST = "hdl21.proto.exporting:ProtoExporter.export_instance"
+WANT_ITERS = {"signals": "list(module.signals.values()) + list(module.ports.values())",
+              "ports": "module.ports.values()", "instances": "module.instances.values()"}
+
+
+class ExportInstanceCallee(Contract):
+    """self.export_instance(inst) as a callee: a new Instance record or a refusal.  Frame ASSUMED: it writes the
+    exporter's tables and other modules' records (it may export the instantiated module first), never the lists of the
+    module record under construction."""
+    key = K_INST
+    pure = True
+    raises = (RuntimeError, ValueError, TypeError)
+    returns = "ref"
+    result_classes = (vckt.Instance,)
+
+    def scenarios(self, eng):
+        return []
+
+    def make_result(self, eng, st, a):
+        return st.alloc(vckt.Instance)
+
+
+@guarded("koi", K_MOD)
+def module_loop_obligations():
+    """ProtoExporter.export_module: (0) the three loops run over every signal and port / every port / every instance of
+    the module (their iteration sources, compared as source text); each loop's body, executed for one arbitrary element
+    from an arbitrary earlier state of the record: (1) one Signal record of the element's name and width appended at the
+    end of pmod.signals; (2) export_port of that very port appended at the end of pmod.ports; (3) export_instance of that
+    very instance appended at the end of pmod.instances, or the export refused."""
+    import ast
+    from pyvc.engine import Frame
+    from hdl21.proto.exporting import ProtoExporter
+    from hdl21.instance import Instance
+    ext = loader.extract(K_MOD)
+    info = {"sha": ext.sha, "lines": ext.lines, "path": ext.path, "paths": 0, "scenarios": 0, "unsupported": []}
+    obs = []
+    loops = {}
+    for n in ast.walk(ext.node):
+        if isinstance(n, ast.For) and isinstance(n.target, ast.Name):
+            for field in WANT_ITERS:
+                if any(isinstance(c, ast.Call) and ast.unparse(c.func) == f"pmod.{field}.append" for c in ast.walk(n)):
+                    loops.setdefault(field, []).append(n)
+    for field, want in WANT_ITERS.items():
+        found = loops.get(field, [])
+        ok = len(found) == 1 and ast.unparse(found[0].iter) == want
+        obs.append(Obligation(f"{K_MOD}/{field}-loop/iterates-over-all", "post", [], z3.BoolVal(ok), K_MOD, f"{field}-loop", 0,
+                              {"trace": [f"found: {[ast.unparse(l.iter) for l in found]}; wanted: {want}"]}))
+    schema = {"Port.signal": "str", "Port.direction": "int", "Module.signals": "py", "Module.ports": "py",
+              "Module.instances": "py", "of": "ref"}
+    for field, elem_cls, rec_cls in (("signals", Signal, vckt.Signal), ("ports", Signal, vckt.Port),
+                                     ("instances", Instance, vckt.Instance)):
+        if len(loops.get(field, [])) != 1:
+            continue
+        loop = loops[field][0]
+        eng = mk_engine(contracts=[ExportPortCallee(), ExportInstanceCallee()], schema_extra=schema)
+        st = eng.new_state()
+        me = sym_ref(st, "self", (ProtoExporter,))
+        pmod = sym_ref(st, "pmod", (vckt.Module,))
+        before = {f: tuple(sym_ref(st, f"{f}{k}", (c,)) for k in range(2))
+                  for f, c in (("signals", vckt.Signal), ("ports", vckt.Port), ("instances", vckt.Instance))}
+        for f, v in before.items():
+            eng.write_field(st, pmod, f, v)
+        elem = sym_ref(st, "elem", (elem_cls,))
+        st.assume(z3.Not(st.heap.get("name$none", elem.z)))
+        name0, width0 = st.heap.get("name", elem.z), st.heap.get("width", elem.z)
+        st.locals = {"self": me, "module": Opaque("module"), "pmod": pmod, loop.target.id: elem}
+        st0 = st.fork()
+        eng.frames.append(Frame(ext, ext.key))
+        eng.cuts = []
+        try:
+            outs = eng.exec_block(loop.body, st)
+        except Unsupported as e:
+            info["unsupported"].append(f"{field} loop body: {e}")
+            continue
+        finally:
+            eng.frames.pop()
+        info["scenarios"] += 1
+        for pi, (kind, s2, v) in enumerate(outs):
+            info["paths"] += 1
+            if kind == "exc":
+                continue
+            now = {f: eng.read_field(s2, pmod, f)[0][1] for f in before}
+            goal = z3.BoolVal(False)
+            shape = all(isinstance(now[f], tuple) and all(isinstance(x, SRef) for x in now[f]) for f in before) and \
+                all(len(now[f]) == (3 if f == field else 2) for f in before) and \
+                all(g.z.eq(b.z) for f in before for g, b in zip(now[f][:2], before[f]))
+            if shape:
+                new = now[field][2]
+                fresh_rec = z3.Not(st0.heap.get("$alive", new.z))
+                if field == "signals":
+                    goal = z3.And(fresh_rec, s2.heap.get(eng.field_key(s2, new, "name"), new.z) == name0,
+                                  s2.heap.get(eng.field_key(s2, new, "width"), new.z) == width0)
+                else:
+                    k = K_PORT if field == "ports" else K_INST
+                    calls = [c for c in s2.calls if c[0] == k]
+                    arg = list(vars(calls[0][1]).values()) if len(calls) == 1 else []
+                    handed = any(isinstance(x, SRef) and x.z.eq(elem.z) for x in arg)
+                    goal = z3.And(fresh_rec, z3.BoolVal(handed))
+                    if field == "ports":
+                        goal = z3.And(goal, s2.heap.get("Port.signal", new.z) == name0)
+            obs.append(Obligation(f"{K_MOD}/{field}-loop/p{pi}/post.one-record-appended", "post", list(s2.pc), goal, K_MOD,
+                                  f"{field}-loop", pi, {"trace": list(s2.trace), "havoc": list(s2.ghost.get("havoc", ()))}))
+    return K_MOD, obs, info
